@@ -9,6 +9,125 @@ import ScpiVerif.Lemmas.IntFmt
 
 namespace ScpiVerif.Lemmas.RoundTrip
 open ScpiVerif ScpiVerif.Lexer ScpiVerif.Spec ScpiVerif.Spec.Message ScpiVerif.Lemmas.Lexer
+open ScpiVerif.IntFmt (specDigits digitChar canon effBase)
+open ScpiVerif.Lemmas.IntFmt (pad)
+
+/-! ### kit: terminated tails, runs of bytes -/
+
+/-- what may follow a result item in a response: nothing, ',', ';', LF, CR -/
+def Term (tail : Bytes) : Prop :=
+  tail = [] ∨ tail.head? = some 44 ∨ tail.head? = some 59 ∨ tail.head? = some 10 ∨ tail.head? = some 13
+
+theorem hd_term {tail : Bytes} (h : Term tail) (p : UInt8 → Bool)
+    (hp : p 44 = false ∧ p 59 = false ∧ p 10 = false ∧ p 13 = false) : hd tail p = false := by
+  cases tail with
+  | nil => rfl
+  | cons x t =>
+    simp only [Term, List.head?_cons, Option.some.injEq] at h
+    rcases h with h | rfl | rfl | rfl | rfl
+    · cases h
+    all_goals simp [hp]
+
+theorem tw_all_append {p : UInt8 → Bool} {ds rest : Bytes} (h : ∀ x ∈ ds, p x = true) (hr : hd rest p = false) :
+    tw p (ds ++ rest) = ds.length := by
+  induction ds with
+  | nil => simpa using tw_eq_zero_iff.2 hr
+  | cons x ds ih =>
+    rw [List.cons_append, tw_cons, if_pos (h x (by simp)), ih (fun y hy => h y (by simp [hy]))]
+    simp; omega
+
+def toB (c : Char) : UInt8 := UInt8.ofNat c.toNat
+
+/-! ### digits -/
+
+theorem specDigits_pad {b : Nat} (hb : 2 ≤ b) (n : Nat) :
+    ∃ k, specDigits b n = pad b (k+1) n ∧ n < b^(k+1) ∧ (n ≠ 0 → b^k ≤ n) := by
+  by_cases hn : n = 0
+  · subst hn
+    refine ⟨0, ?_, by simp; omega, by simp⟩
+    rw [IntFmt.specDigits_zero]; simp [pad, IntFmt.digitChar_zero]
+  · obtain ⟨k, a, c⟩ := IntFmt.exists_pow_bracket hb n (by omega)
+    exact ⟨k, IntFmt.specDigits_eq hb a c, c, fun _ => a⟩
+
+theorem pad_mem (b : Nat) (hb : 0 < b) (k : Nat) : ∀ n, ∀ c ∈ pad b k n, ∃ d, d < b ∧ c = digitChar d := by
+  induction k with
+  | zero => intro n c h; simp [pad] at h
+  | succ k ih =>
+    intro n c h
+    simp only [pad, List.mem_append, List.mem_singleton] at h
+    rcases h with h | h
+    · exact ih _ c h
+    · exact ⟨n % b, Nat.mod_lt _ hb, h⟩
+
+theorem foldl_pad (b : Nat) (g : UInt8 → Nat) (hg : ∀ d, d < b → g (toB (digitChar d)) = d) (hb : 0 < b) (k : Nat) :
+    ∀ n acc, ((pad b k n).map toB).foldl (fun a x => a * b + g x) acc = acc * b^k + n % b^k := by
+  induction k with
+  | zero => intro n acc; simp [pad, Nat.mod_one]
+  | succ k ih =>
+    intro n acc
+    have hlt : n % b < b := Nat.mod_lt _ hb
+    rw [pad, List.map_append, List.foldl_append, ih]
+    simp only [List.map_cons, List.map_nil, List.foldl_cons, List.foldl_nil, hg _ hlt]
+    have e : n % b^(k+1) = n % b + b * (n / b % b^k) := by
+      rw [Nat.pow_succ, Nat.mul_comm, Nat.mod_mul]
+    rw [e, Nat.add_mul, Nat.mul_assoc, Nat.mul_comm (n / b % b^k) b, Nat.pow_succ]
+    omega
+
+/-- the digit bytes of `n` in base `b` -/
+def digs (b n : Nat) : Bytes := (specDigits b n).map toB
+
+theorem byte_facts : ∀ d, d < 16 →
+    Prim.digitVal (toB (digitChar d)) = some d ∧ isXDigit (toB (digitChar d)) = true ∧
+    (d < 8 → isQDigit (toB (digitChar d)) = true) ∧ (d < 2 → isBDigit (toB (digitChar d)) = true) ∧
+    (d < 10 → isDigit (toB (digitChar d)) = true ∧ (toB (digitChar d)).toNat - 48 = d) ∧
+    (toB (digitChar d) = 48 → d = 0) ∧ Prim.isSpace (toB (digitChar d)) = false ∧
+    toB (digitChar d) ≠ 45 ∧ toB (digitChar d) ≠ 43 := by decide +kernel
+
+structure DigsOK (b n : Nat) (ds : Bytes) : Prop where
+  ne : ds ≠ []
+  mem : ∀ x ∈ ds, ∃ d, d < b ∧ x = toB (digitChar d)
+  val : ∀ (g : UInt8 → Nat), (∀ d, d < b → g (toB (digitChar d)) = d) → ∀ acc, ds.foldl (fun a x => a * b + g x) acc = acc * b ^ ds.length + n
+  lead : ds.head? = some 48 → ds = [48]
+
+theorem digs_ok {b : Nat} (hb : 2 ≤ b) (hb16 : b ≤ 16) (n : Nat) : DigsOK b n (digs b n) := by
+  obtain ⟨k, e, hlt, hge⟩ := specDigits_pad hb n
+  have hx : 0 < b^k := Nat.pow_pos (by omega)
+  unfold digs
+  rw [e]
+  refine ⟨?_, ?_, ?_, ?_⟩
+  · intro h; have := congrArg List.length h; simp at this
+  · intro x hx
+    obtain ⟨c, hc, rfl⟩ := List.mem_map.1 hx
+    obtain ⟨d, hd, rfl⟩ := pad_mem b (by omega) _ _ c hc
+    exact ⟨d, hd, rfl⟩
+  · intro g hg acc
+    rw [foldl_pad b g hg (by omega), Nat.mod_eq_of_lt hlt]; simp
+  · rw [IntFmt.pad_succ_msd]
+    intro h
+    simp only [List.map_cons, List.head?_cons, Option.some.injEq] at h
+    have hq2 : n / b^k < b := by
+      rw [Nat.div_lt_iff_lt_mul hx]
+      have := hlt; rw [Nat.pow_succ, Nat.mul_comm] at this; rwa [Nat.mul_comm]
+    rw [Nat.mod_eq_of_lt hq2] at h
+    have h0 := (byte_facts _ (by omega)).2.2.2.2.2.1 h
+    have hn0 : n = 0 := by
+      apply Decidable.byContradiction
+      intro hne
+      have := hge hne
+      have : 1 ≤ n / b^k := (Nat.le_div_iff_mul_le hx).2 (by simpa using this)
+      omega
+    subst hn0
+    have hk : k = 0 := by
+      apply Decidable.byContradiction
+      intro hk
+      -- n = 0 was bracketed with k = 0
+      have : specDigits b 0 = ['0'] := IntFmt.specDigits_zero b
+      rw [e] at this
+      have := congrArg List.length this
+      simp at this; omega
+    subst hk
+    simp [pad, IntFmt.digitChar_zero, toB]
+    decide
 
 /-! ### narrow widths, booleans -/
 
